@@ -371,6 +371,80 @@ theorem fnPred_pres (p : Val → Bool) (e : Arg → M Val) (args : List Arg) (he
     pres
   | _ :: _ :: _ => simp only [fnPred]; pres
 
+
+/-! ### text, conversion and list functions -/
+
+theorem wantLoop_pres (e : Arg → M Val) :
+    ∀ (args : List Arg) (ws : List Want) (acc : List Tree), (∀ a ∈ args, Pres (e a)) → Pres (wantLoop e args ws acc)
+  | [], _, _, _ => by simp only [wantLoop]; pres
+  | _ :: _, [], _, _ => by simp only [wantLoop]; pres
+  | a :: r, w :: ws, acc, he => by
+    have h1 := he a (List.mem_cons_self ..)
+    have ih := fun acc' => wantLoop_pres e r ws acc' (mem_tail he)
+    simp only [wantLoop]
+    pres
+    all_goals exact ih _
+
+theorem retTree_pres (t : Tree) : Pres (retTree t) := by
+  cases t <;> simp only [retTree] <;> pres
+
+theorem swapArgs_mem {P : Arg → Prop} {b : Bool} {args : List Arg} (he : ∀ a ∈ args, P a) :
+    ∀ a ∈ (if b = true then args.reverse else args), P a := by
+  intro a ha
+  split at ha
+  · exact he a (by simpa using ha)
+  · exact he a ha
+
+theorem fnScalar_pres (g : ScalarFn) (e : Arg → M Val) (args : List Arg) (he : ∀ a ∈ args, Pres (e a)) :
+    Pres (fnScalar g e args) := by
+  have hw := wantLoop_pres e _ (g.wants args.length) [] (swapArgs_mem (b := g.swap) he)
+  have hr := retTree_pres
+  unfold fnScalar
+  pres
+  all_goals exact hr _
+
+theorem fnReverse_pres (e : Arg → M Val) (args : List Arg) (he : ∀ a ∈ args, Pres (e a)) : Pres (fnReverse e args) := by
+  match args with
+  | [] => simp only [fnReverse]; pres
+  | [a] =>
+    have h1 := he a (by simp)
+    simp only [fnReverse]
+    pres
+  | _ :: _ :: _ => simp only [fnReverse]; pres
+
+theorem fnAppend_pres (e : Arg → M Val) (args : List Arg) (he : ∀ a ∈ args, Pres (e a)) : Pres (fnAppend e args) := by
+  match args with
+  | [] => simp only [fnAppend]; pres
+  | [_] => simp only [fnAppend]; pres
+  | [a, b] =>
+    have h1 := he a (by simp)
+    have h2 := he b (by simp)
+    simp only [fnAppend]
+    pres
+  | _ :: _ :: _ :: _ => simp only [fnAppend]; pres
+
+theorem fnInclude_pres (e : Arg → M Val) (args : List Arg) (he : ∀ a ∈ args, Pres (e a)) : Pres (fnInclude e args) := by
+  match args with
+  | [] => simp only [fnInclude]; pres
+  | [_] => simp only [fnInclude]; pres
+  | [a, b] =>
+    have h1 := he a (by simp)
+    have h2 := he b (by simp)
+    simp only [fnInclude]
+    pres
+  | _ :: _ :: _ :: _ => simp only [fnInclude]; pres
+
+/-- `sort` only allocates: the array it is given is not touched (the copy is the documented behaviour) -/
+theorem fnSort_pres (env : Env) (e : Arg → M Val) (args : List Arg) (he : ∀ a ∈ args, Pres (e a)) : Pres (fnSort env e args) := by
+  match args with
+  | [] => simp only [fnSort]; pres
+  | [_] => simp only [fnSort]; pres
+  | [a, b] =>
+    have h1 := he a (by simp)
+    simp only [fnSort]
+    pres
+  | _ :: _ :: _ :: _ => simp only [fnSort]; pres
+
 /-- the functions documented to modify the data their path argument names -/
 def mutatorFns : List Bytes := [b!"set", b!"setall", b!"del", b!"delall"]
 
@@ -441,6 +515,11 @@ theorem evalFn_pres (env : Env) (ev : Arg → Val → M Val) (root at_ : Val) (f
     case nth => exact fnNth_pres _ _ he
     case size => exact fnSize_pres _ _ he
     case pred p => exact fnPred_pres _ _ _ he
+    case scalar g => exact fnScalar_pres _ _ _ he
+    case reverse => exact fnReverse_pres _ _ he
+    case append => exact fnAppend_pres _ _ he
+    case incl => exact fnInclude_pres _ _ he
+    case sort => exact fnSort_pres _ _ _ he
 
 theorem eval_pres (env : Env) (root : Val) : ∀ (n : Nat) (a : Arg), NoMut a → ∀ at_, Pres (eval env root n a at_)
   | n, .lit v, _, at_ => by simp only [eval]; exact evalLit_pres _ _
